@@ -66,7 +66,7 @@ def shrink(ctx, hb, seed, steps, prop, profile, scenario_cls):
     for st in sorted(set([2, 4, 8, 12, 16, 24, 32, 48, steps])):
         h = Harness(hb); s = scenario_cls(h, random.Random(seed), profile=profile).run(st); h.close()
         v = M.View(s)
-        try: fs = M.MONITORS[prop](s, v)
+        try: fs = [x for x in M.MONITORS[prop](s, v) if not x.startswith("KNOWN-")]      # a recorded finding is not what is being minimised
         except Exception: fs = []
         if s.crashed and prop == "C19": fs = fs or ["crash"]
         if fs: best = (st, s, fs); break
